@@ -1,6 +1,7 @@
 package main
 
 import (
+	"regexp"
 	"os/exec"
 	"encoding/json"
 	"flag"
@@ -278,6 +279,28 @@ func cmdCheck(args []string) int {
 		}
 		fmt.Println(line)
 		fmt.Printf("  obligation %s [%s] %s\n  clause: %s\n", n, s.Pos, rp.Verdict, s.Clause)
+	}
+	// A contract that can no longer be bound to the code (a field, local, function or callee it names is gone) means the
+	// obligations it stands for cannot be generated any more: reported as a violation of the named contract (without a
+	// failing input), not as an undecided check - the proof that held on the unchanged tree does not hold here.
+	{
+		var rest []string
+		bindRe := regexp.MustCompile(`has no field|unknown identifier|unknown function|function under contract not found|unknown type|no contract for|not a struct|field .* not found`)
+		for _, u := range undec {
+			if !bindRe.MatchString(u) {
+				rest = append(rest, u)
+				continue
+			}
+			violations++
+			name := "contract-bind"
+			rp := filepath.Join(vd, "replays", prop.ID, sanitize(fmt.Sprintf("contract_bind_%d", violations)), "replay.json")
+			os.MkdirAll(filepath.Dir(rp), 0o755)
+			js, _ := json.MarshalIndent(map[string]interface{}{"property": prop.ID, "obligation": name, "verdict": "the contract cannot be bound to the current code; no failing input", "verifier_output": u}, "", " ")
+			os.WriteFile(rp, js, 0o644)
+			failedNames = append(failedNames, name+": "+u)
+			fmt.Printf("VIOLATION property=%s replay=%s no-failing-input-found\n  obligation %s: %s\n", prop.ID, rp, name, strings.ReplaceAll(u, "\n", " "))
+		}
+		undec = rest
 	}
 	nObl := len(order)
 	// guards against vacuity
